@@ -117,13 +117,21 @@ def run_case(case):
     tier = common.TIER
     ref = families.make_ref('p', case['mesh'], case['fields'], layout=case['layout'], geom=case['geom'])
     viol = {}
-    singles = [c for c in corrupt.corruptions(ref, tier=tier) if c.c04]
+    singles = [c for c in corrupt.corruptions(ref, tier=tier, want=case.get('want')) if c.c04]
     n = 0
+    if case.get('wide'):
+        # many boxes in one binary file: data inserted / removed at every in-file position of this case's share of the file
+        # (where a validator that walks a file in batches, chunks or pieces would have its seams)
+        lo_, hi_ = case['sites']
+        for i, c in enumerate(c for c in singles if lo_ <= c.site[2] < hi_):
+            explore_corr(mods, ref, [c], res, viol, both_modes=(i % 16 == 0))
+            n += 1
+        singles = []
     for i, c in enumerate(singles):
         explore_corr(mods, ref, [c], res, viol, both_modes=(tier != 'quick' or i % 4 == 0))
         n += 1
     # box coordinates
-    ccs = corrupt.coord_corruptions(ref, tier=tier)
+    ccs = corrupt.coord_corruptions(ref, tier=tier) if not case.get('wide') else []
     for c in ccs:
         explore_corr(mods, ref, [c], res, viol, coords=True)
         n += 1
@@ -237,6 +245,14 @@ def cases():
                 lays = lays[::3]
             for lay in lays:
                 out.append({'label': '%s/layout%s' % (m.name, lay), 'mesh': m, 'fields': fsets[1], 'layout': [lay], 'geom': 1})
+    # one binary file holding many boxes (beyond 32, 64 and 128): every in-file position, shared out over several cases
+    for counts, nfiles, share in [((12, 11), 1, 12)] + ([] if tier == 'quick' else [((23, 12), 1, 12), ((9, 5, 6), 2, 15)]):
+        gm = families.grid_mesh(counts)
+        nb = gm.nboxes()[0]
+        per = (nb + nfiles - 1) // nfiles
+        for lo_ in range(0, per, share):
+            out.append({'label': '%s/%dfile/pos%d-%d' % (gm.name, nfiles, lo_, min(per, lo_ + share) - 1), 'mesh': gm, 'fields': fsets[1], 'layout': [families.dealt_layout(nb, nfiles, stride=3)],
+                        'geom': 0, 'wide': True, 'want': ('reindexed',), 'sites': (lo_, lo_ + share)})
     for r in range(2 if tier == 'quick' else 16):
         nd = rnd.choice([2, 3])
         m = families.random_mesh(rnd, nd, max_levels=2, max_boxes=3, max_extent=4)
@@ -255,7 +271,7 @@ def main():
                        'an offset that points inside the prefix of its own FAB header (same header still parses) is not in C04\'s class; C20 covers it',
                        'corruptions of levels above the level limit are outside (limit = finest here)',
                        'inserted/removed byte counts and offset shifts are enumerated from a stated set, not symbolic']
-    rep.bounds = {'levels': '1-3', 'boxes_per_level': '1-4', 'files_per_level': '1-2', 'file_length': 'symbolic in [0, natural+4096] minus natural',
+    rep.bounds = {'levels': '1-3', 'boxes_per_level': '1-4 with every corruption class; 132 (quick) / up to 276 (thorough) one-cell boxes in one or two files with data inserted / removed at every in-file position', 'files_per_level': '1-2', 'file_length': 'symbolic in [0, natural+4096] minus natural',
                   'box_bound_error': 'symbolic, 2*tol < |eps| < 1000'}
     common.run_cases(rep, run_case, cases())
     from harness import k_lemmas
